@@ -16,7 +16,7 @@ PROPS = {
         ],
     },
     "C01": {
-        "theorems": ["SV.Props.C01.nonce_run_of_every_reachable_pool", "SV.Props.C01.nonce_run", "SV.Props.C01.nonce_run_select", "SV.Props.C01.reachable_lists_sorted"],
+        "theorems": ["SV.Props.C01.source_detectors_are_the_models", "SV.Props.C01.nonce_run_of_every_reachable_pool", "SV.Props.C01.nonce_run", "SV.Props.C01.nonce_run_select", "SV.Props.C01.reachable_lists_sorted"],
         "modules": ["SV.Props.C01"],
         "runs": [{"component": "txcache", "thorough_seeds": 3, "compare_kinds": ["selb"]}],
         "rule": "random add/rm/clear/sel histories over a small transaction alphabet (hash determines content) under boundary-biased configurations; distinct = distinct (operation kind, canonical output incl. full API dump) pairs observed on the implementation",
@@ -26,7 +26,7 @@ PROPS = {
         ],
     },
     "C02": {
-        "theorems": ["SV.Props.C02.constraints_of_every_reachable_pool", "SV.Props.C02.distinct_members", "SV.Props.C02.count_bound", "SV.Props.C02.gas_sum_and_budget", "SV.Props.C02.no_bad_guard", "SV.Props.C02.balances_cover", "SV.Props.C02.current_does_not_wrap", "SV.Props.C02.legacy_gas_counterexample"],
+        "theorems": ["SV.Props.C02.source_loop_exits_are_the_models", "SV.Props.C02.constraints_of_every_reachable_pool", "SV.Props.C02.distinct_members", "SV.Props.C02.count_bound", "SV.Props.C02.gas_sum_and_budget", "SV.Props.C02.no_bad_guard", "SV.Props.C02.balances_cover", "SV.Props.C02.current_does_not_wrap", "SV.Props.C02.legacy_gas_counterexample"],
         "modules": ["SV.Props.C02"],
         "runs": [{"component": "txcache", "thorough_seeds": 3, "compare_kinds": ["selb"]}],
         "rule": "random add/rm/clear/sel histories over a small transaction alphabet (hash determines content) under boundary-biased configurations; distinct = distinct (operation kind, canonical output incl. full API dump) pairs observed on the implementation",
@@ -36,7 +36,7 @@ PROPS = {
         ],
     },
     "C03": {
-        "theorems": ["SV.Props.C03.greedy_on_every_reachable_pool", "SV.Props.C03.ppu_is_floor", "SV.Props.C03.comparator_strict_total", "SV.Props.C03.pops_the_best", "SV.Props.C03.order_independent", "SV.Props.C03.stricter_limits_give_prefix", "SV.Props.C03.equals_documented_greedy_procedure", "SV.Props.C03.container_heap_refines_extract_best", "SV.Props.C03.repeatable", "SV.Props.C03.legacy_ppu_truncates"],
+        "theorems": ["SV.Props.C03.source_comparator_is_the_models", "SV.Props.C03.source_comparator_reads", "SV.Props.C03.greedy_on_every_reachable_pool", "SV.Props.C03.ppu_is_floor", "SV.Props.C03.comparator_strict_total", "SV.Props.C03.pops_the_best", "SV.Props.C03.order_independent", "SV.Props.C03.stricter_limits_give_prefix", "SV.Props.C03.equals_documented_greedy_procedure", "SV.Props.C03.container_heap_refines_extract_best", "SV.Props.C03.repeatable", "SV.Props.C03.legacy_ppu_truncates"],
         "modules": ["SV.Props.C03"],
         "runs": [{"component": "txcache", "thorough_seeds": 3, "compare_kinds": ["selb"]}],
         "rule": "random add/rm/clear/sel histories over a small transaction alphabet (hash determines content) under boundary-biased configurations; distinct = distinct (operation kind, canonical output incl. full API dump) pairs observed on the implementation",
@@ -46,7 +46,7 @@ PROPS = {
         ],
     },
     "C04": {
-        "theorems": ["SV.Props.C04.lists_equal_reference_after_any_history", "SV.Props.C04.hash_index_equals_reference_after_any_history", "SV.Props.C04.insert_is_ordered_insert", "SV.Props.C04.lists_sorted_add", "SV.Props.C04.lists_sorted_remove", "SV.Props.C04.sorted_has_no_duplicates", "SV.Props.C04.add_semantics", "SV.Props.C04.add_leaves_other_senders", "SV.Props.C04.remove_semantics", "SV.Props.C04.lookups_agree", "SV.Props.C04.trim_partial", "SV.Props.C04.trim_incomplete_F3"],
+        "theorems": ["SV.Props.C04.source_sender_limit_test_is_the_models", "SV.Props.C04.lists_equal_reference_after_any_history", "SV.Props.C04.hash_index_equals_reference_after_any_history", "SV.Props.C04.insert_is_ordered_insert", "SV.Props.C04.lists_sorted_add", "SV.Props.C04.lists_sorted_remove", "SV.Props.C04.sorted_has_no_duplicates", "SV.Props.C04.add_semantics", "SV.Props.C04.add_leaves_other_senders", "SV.Props.C04.remove_semantics", "SV.Props.C04.lookups_agree", "SV.Props.C04.trim_partial", "SV.Props.C04.trim_incomplete_F3"],
         "modules": ["SV.Props.C04"],
         "runs": [{"component": "txcache", "thorough_seeds": 3, "compare_kinds": ["add", "rm", "clear"], "history_filter": "evict=0"}],
         "rule": "random add/rm/clear/sel histories over a small transaction alphabet (hash determines content) under boundary-biased configurations; distinct = distinct (operation kind, canonical output incl. full API dump) pairs observed on the implementation",
@@ -66,7 +66,7 @@ PROPS = {
         ],
     },
     "C06": {
-        "theorems": ["SV.Props.C06.sender_count_bound", "SV.Props.C06.sender_bytes_partial", "SV.Props.C06.eviction_postcondition", "SV.Props.C06.pool_bounds_after_add", "SV.Props.C06.no_pool_wide_drop_when_disabled"],
+        "theorems": ["SV.Props.C06.source_threshold_tests_are_the_models", "SV.Props.C06.source_sender_limit_test_is_the_models", "SV.Props.C06.sender_count_bound", "SV.Props.C06.sender_bytes_partial", "SV.Props.C06.eviction_postcondition", "SV.Props.C06.pool_bounds_after_add", "SV.Props.C06.no_pool_wide_drop_when_disabled"],
         "modules": ["SV.Props.C06"],
         "runs": [{"component": "txcache", "thorough_seeds": 3, "compare_kinds": ["add", "rm", "clear"]}],
         "rule": "random add/rm/clear/sel histories over a small transaction alphabet (hash determines content) under boundary-biased configurations; distinct = distinct (operation kind, canonical output incl. full API dump) pairs observed on the implementation",
@@ -76,7 +76,7 @@ PROPS = {
         ],
     },
     "C07": {
-        "theorems": ["SV.Props.C07.takes_least_valuable", "SV.Props.C07.batch_size", "SV.Props.C07.stops_when_within", "SV.Props.C07.noop_within_thresholds", "SV.Props.C07.loses_nonce_suffix", "SV.Props.C07.disappear_from_every_view", "SV.Props.C07.victim_independent_of_order"],
+        "theorems": ["SV.Props.C07.source_threshold_tests_are_the_models", "SV.Props.C07.source_comparator_is_the_models", "SV.Props.C07.takes_least_valuable", "SV.Props.C07.batch_size", "SV.Props.C07.stops_when_within", "SV.Props.C07.noop_within_thresholds", "SV.Props.C07.loses_nonce_suffix", "SV.Props.C07.disappear_from_every_view", "SV.Props.C07.victim_independent_of_order"],
         "modules": ["SV.Props.C07"],
         "runs": [{"component": "txcache", "thorough_seeds": 3, "compare_kinds": ["add", "rm", "clear"]}],
         "rule": "random add/rm/clear/sel histories over a small transaction alphabet (hash determines content) under boundary-biased configurations; distinct = distinct (operation kind, canonical output incl. full API dump) pairs observed on the implementation",
@@ -86,7 +86,7 @@ PROPS = {
         ],
     },
     "C12": {
-        "theorems": ["SV.Props.C12.add_keeps_immune", "SV.Props.C12.eviction_skips_immune", "SV.Props.C12.protected_forever", "SV.Props.C12.protected_when_added", "SV.Props.C12.protected_when_immunized", "SV.Props.C12.all_immune_refused", "SV.Props.C12.refusal_changes_nothing", "SV.Props.C12.never_overwrites", "SV.Props.C12.legacy_F10"],
+        "theorems": ["SV.Props.C12.source_capacity_test_is_the_models", "SV.Props.C12.source_chunk_config_is_the_models", "SV.Props.C12.add_keeps_immune", "SV.Props.C12.eviction_skips_immune", "SV.Props.C12.protected_forever", "SV.Props.C12.protected_when_added", "SV.Props.C12.protected_when_immunized", "SV.Props.C12.all_immune_refused", "SV.Props.C12.refusal_changes_nothing", "SV.Props.C12.never_overwrites", "SV.Props.C12.legacy_F10"],
         "modules": ["SV.Props.C12"],
         "runs": [{"component": "immunity", "thorough_seeds": 2}],
         "rule": "random HasOrAdd/Put/Remove/ImmunizeKeys/Clear histories over 4-12 keys through ImmunityCache and CrossTxCache, 1-16 chunks, capacities at their lower bounds, sizes 0..500; thorough adds all histories of length 5 over an 11-operation alphabet (single chunk); distinct = distinct (operation kind, canonical output incl. full dump) pairs",
@@ -94,7 +94,7 @@ PROPS = {
         "assumptions": ["Go maps and container/list are modelled (association lists, lists); chunk routing by fnv32 is modelled exactly; item sizes are >= 0"],
     },
     "C13": {
-        "theorems": ["SV.Props.C13.chunk_invariant", "SV.Props.C13.flags_truthful", "SV.Props.C13.eviction_is_fifo", "SV.Props.C13.eviction_partition", "SV.Props.C13.remove_withdraws_immunity", "SV.Props.C13.immunize_gate"],
+        "theorems": ["SV.Props.C13.source_capacity_test_is_the_models", "SV.Props.C13.source_chunk_config_is_the_models", "SV.Props.C13.chunk_invariant", "SV.Props.C13.flags_truthful", "SV.Props.C13.eviction_is_fifo", "SV.Props.C13.eviction_partition", "SV.Props.C13.remove_withdraws_immunity", "SV.Props.C13.immunize_gate"],
         "modules": ["SV.Props.C13"],
         "runs": [{"component": "immunity", "thorough_seeds": 2}],
         "rule": "random HasOrAdd/Put/Remove/ImmunizeKeys/Clear histories over 4-12 keys through ImmunityCache and CrossTxCache, 1-16 chunks, capacities at their lower bounds, sizes 0..500; thorough adds all histories of length 5 over an 11-operation alphabet (single chunk); distinct = distinct (operation kind, canonical output incl. full dump) pairs",
@@ -102,7 +102,7 @@ PROPS = {
         "assumptions": ["Go maps and container/list are modelled (association lists, lists); chunk routing by fnv32 is modelled exactly; item sizes are >= 0"],
     },
     "C15": {
-        "theorems": ["SV.Props.C15.invariant_put", "SV.Props.C15.invariant_hasOrAdd", "SV.Props.C15.invariant_get", "SV.Props.C15.invariant_remove", "SV.Props.C15.eviction_drops_lru_suffix", "SV.Props.C15.eviction_minimal", "SV.Props.C15.put_refreshes", "SV.Props.C15.negative_size_rejected", "SV.Props.C15.evicted_flag_truthful", "SV.Props.C15.get_refreshes", "SV.Props.C15.hasOrAdd_flags", "SV.Props.C15.simple_bound", "SV.Props.C15.simple_evicts_lru", "SV.Props.C15.put_invokes_each_handler_once", "SV.Props.C15.hasOrAdd_invokes_iff_added", "SV.Props.C15.registry_is_a_set", "SV.Props.C15.legacy_F11"],
+        "theorems": ["SV.Props.C15.source_eviction_test_is_the_models", "SV.Props.C15.invariant_put", "SV.Props.C15.invariant_hasOrAdd", "SV.Props.C15.invariant_get", "SV.Props.C15.invariant_remove", "SV.Props.C15.eviction_drops_lru_suffix", "SV.Props.C15.eviction_minimal", "SV.Props.C15.put_refreshes", "SV.Props.C15.negative_size_rejected", "SV.Props.C15.evicted_flag_truthful", "SV.Props.C15.get_refreshes", "SV.Props.C15.hasOrAdd_flags", "SV.Props.C15.simple_bound", "SV.Props.C15.simple_evicts_lru", "SV.Props.C15.put_invokes_each_handler_once", "SV.Props.C15.hasOrAdd_invokes_iff_added", "SV.Props.C15.registry_is_a_set", "SV.Props.C15.legacy_F11"],
         "modules": ["SV.Props.C15"],
         "runs": [{"component": "lru", "thorough_seeds": 2}],
         "rule": "random Put/HasOrAdd/Get/Peek/Has/Remove/Clear/Register/UnRegister histories over 3-8 keys on lrucache.NewCache (hashicorp LRU) and NewCacheWithSizeInBytes (capacityLRU), capacities 1-6, byte capacities 1..100000, sizes -3..1000; handler invocations collected per call; distinct = distinct (operation kind, canonical output incl. Keys order, Len, bytes, handler multiset) pairs",
@@ -110,7 +110,7 @@ PROPS = {
         "assumptions": ["hashicorp/golang-lru v0.6.0 simplelru and container/list are modelled from their source; handlers run on goroutines: the harness waits for quiescence (bounded) before reading the invocation multiset"],
     },
     "C08": {
-        "theorems": ["SV.Props.C08.get_is_logical_map", "SV.Props.C08.has_agrees_with_get", "SV.Props.C08.put_then_read", "SV.Props.C08.remove_then_read", "SV.Props.C08.flush_invisible", "SV.Props.C08.history_refines_map", "SV.Props.C08.mem_is_a_map", "SV.Props.C08.legacy_F8"],
+        "theorems": ["SV.Props.C08.source_flush_test_is_the_models", "SV.Props.C08.get_is_logical_map", "SV.Props.C08.has_agrees_with_get", "SV.Props.C08.put_then_read", "SV.Props.C08.remove_then_read", "SV.Props.C08.flush_invisible", "SV.Props.C08.history_refines_map", "SV.Props.C08.mem_is_a_map", "SV.Props.C08.legacy_F8"],
         "modules": ["SV.Props.C08"],
         "runs": [{"component": "persist", "thorough_seeds": 2}],
         "rule": "random Put/Remove/tick/Close+reopen/RangeKeys histories over 3-7 keys (values nil, empty, short, long) on leveldb.DB, leveldb.SerialDB, memorydb and the sharded persister over each (2,3,5 shards), MaxBatchSize 1..100, real LevelDB directories, timer flushes by real waiting (BatchDelaySeconds=1); Get/Has of every key after every operation; distinct = distinct (operation kind, full read-back) pairs",
@@ -131,7 +131,7 @@ PROPS = {
         "assumptions": ['the cacher is modelled as ANY cache that only returns what was put and not removed since (its eviction outcome is an input)', 'persister = map with a fault oracle'],
     },
     "C17": {
-        "theorems": ["SV.Props.C17.never_loses_all_entry_points", "SV.Props.C17.live_keys_characterised", "SV.Props.C17.hasOrAdd_is_has_then_put", "SV.Props.C17.hasOrAdd_spills_before_dropping", "SV.Props.C17.never_loses", "SV.Props.C17.spills_before_dropping", "SV.Props.C17.legacy_F11"],
+        "theorems": ["SV.Props.C17.source_eviction_test_is_the_models", "SV.Props.C17.never_loses_all_entry_points", "SV.Props.C17.live_keys_characterised", "SV.Props.C17.hasOrAdd_is_has_then_put", "SV.Props.C17.hasOrAdd_spills_before_dropping", "SV.Props.C17.never_loses", "SV.Props.C17.spills_before_dropping", "SV.Props.C17.legacy_F11"],
         "modules": ["SV.Props.C17"],
         "runs": [{"component": "adapter", "thorough_seeds": 2}],
         "rule": 'random Put/Get/Has/Peek histories (one third) and histories that also use HasOrAdd/Remove/Clear/Len/Keys (two thirds) on storageCacherAdapter over the real capacityLRU (item capacities 1-4, byte capacities 1..100000, sizes 0..1000, re-puts with other sizes) and memorydb / real LevelDB; each key bound to one immutable value; distinct = distinct (operation kind, canonical output) pairs',
@@ -145,7 +145,7 @@ PROPS = {
         "assumptions": ['multiversx/concurrent-map v0.1.4 is modelled from its source (age-ordered view of the ring); keys are non-empty'],
     },
     "C18": {
-        "theorems": ["SV.Props.C18.present_at_every_query_until_span_elapsed", "SV.Props.C18.gone_after_a_sweep_past_the_span", "SV.Props.C18.upsert_never_shortens_life", "SV.Props.C18.cacher_serves_latest_put_until_expiry", "SV.Props.C18.brackets_sound_hasOrAdd", "SV.Props.C18.hasOrAdd_flags_decided_when_certain", "SV.Props.C18.verdict_sound_for_every_history", "SV.Props.C18.retained_until_span_elapsed", "SV.Props.C18.dropped_by_later_sweep", "SV.Props.C18.upsert_max_and_restart", "SV.Props.C18.add_replaces_and_restarts", "SV.Props.C18.hasOrAdd_flags", "SV.Props.C18.brackets_sound_add", "SV.Props.C18.brackets_sound_upsert", "SV.Props.C18.brackets_sound_sweep", "SV.Props.C18.verdict_sound"],
+        "theorems": ["SV.Props.C18.source_expiry_test_is_the_models", "SV.Props.C18.present_at_every_query_until_span_elapsed", "SV.Props.C18.gone_after_a_sweep_past_the_span", "SV.Props.C18.upsert_never_shortens_life", "SV.Props.C18.cacher_serves_latest_put_until_expiry", "SV.Props.C18.brackets_sound_hasOrAdd", "SV.Props.C18.hasOrAdd_flags_decided_when_certain", "SV.Props.C18.verdict_sound_for_every_history", "SV.Props.C18.retained_until_span_elapsed", "SV.Props.C18.dropped_by_later_sweep", "SV.Props.C18.upsert_max_and_restart", "SV.Props.C18.add_replaces_and_restarts", "SV.Props.C18.hasOrAdd_flags", "SV.Props.C18.brackets_sound_add", "SV.Props.C18.brackets_sound_upsert", "SV.Props.C18.brackets_sound_sweep", "SV.Props.C18.verdict_sound"],
         "modules": ["SV.Props.C18"],
         "runs": [{"component": "timecache", "thorough_seeds": 2}],
         "rule": 'histories of Add/AddWithSpan/Upsert/Put/HasOrAdd/Remove/Sweep/sleep on TimeCache, peerTimeCache and timeCacher with every call bracketed by monotonic clock readings fed to the model (two exact models bound the unknown reading: must/may); spans 40-300 ms (1 s for timeCacher); a liveness probe for the self-sweeper; distinct = distinct (operation kind, canonical output) pairs',
@@ -159,7 +159,7 @@ PROPS = {
         "assumptions": ["the all-schedules theorem is about the block-interleaving model (critical sections as atomic blocks, block structure tied to the source by regenerated facts and by forced schedules); Go memory-model races inside a block, fairness and goleveldb's internal concurrency are outside the model", "porcupine (linearizability checker) is a search aid for failing inputs, not a proof"],
     },
     "C10": {
-        "theorems": ["SV.Props.C10.crash_recovers_a_flush_boundary", "SV.Props.C10.acknowledged_write_flushed_within", "SV.Props.C10.timer_and_close_are_boundaries", "SV.Props.C10.lost_updates_are_bounded", "SV.Props.C10.driver_judgement_sound", "SV.Props.C10.driver_judgement_complete", "SV.Props.C10.every_write_is_synced", "SV.Props.C10.put_db_atomic", "SV.Props.C10.remove_db_atomic", "SV.Props.C10.flush_db", "SV.Props.C10.crash_during_flushing_put", "SV.Props.C10.crash_during_non_flushing_put", "SV.Props.C10.flushed_state_is_the_map", "SV.Props.C10.at_risk_bounded", "SV.Props.C10.invariant_put", "SV.Props.C10.invariant_remove"],
+        "theorems": ["SV.Props.C10.source_flush_test_is_the_models", "SV.Props.C10.crash_recovers_a_flush_boundary", "SV.Props.C10.acknowledged_write_flushed_within", "SV.Props.C10.timer_and_close_are_boundaries", "SV.Props.C10.lost_updates_are_bounded", "SV.Props.C10.driver_judgement_sound", "SV.Props.C10.driver_judgement_complete", "SV.Props.C10.every_write_is_synced", "SV.Props.C10.put_db_atomic", "SV.Props.C10.remove_db_atomic", "SV.Props.C10.flush_db", "SV.Props.C10.crash_during_flushing_put", "SV.Props.C10.crash_during_non_flushing_put", "SV.Props.C10.flushed_state_is_the_map", "SV.Props.C10.at_risk_bounded", "SV.Props.C10.invariant_put", "SV.Props.C10.invariant_remove"],
         "modules": ["SV.Props.C10"],
         "runs": [{"component": "crash", "thorough_seeds": 2}],
         "rule": "workloads of Put/Remove/tick/Close/reopen on leveldb.DB and SerialDB (batch sizes 1-5) over a recording goleveldb storage; at EVERY storage event (create/write/sync/setmeta/remove/rename) during a call and at every operation boundary crash images are materialised (unsynced tail none / torn at a random byte / all), reopened with the unmodified constructors and dumped by RangeKeys; the Lean model decides whether each recovered map is an allowed flush boundary; distinct = distinct (operation kind, output) pairs",
